@@ -9,6 +9,8 @@ import SfntV.Proofs.Metrics
 import SfntV.Proofs.MetricsHead
 import SfntV.Model.Caret
 import SfntV.Proofs.MetricsDerived
+import SfntV.Proofs.MetricsOs2
+import SfntV.Proofs.MetricsWriter
 
 namespace SfntV.Props.C12
 open SfntV SfntV.Metrics
@@ -132,6 +134,89 @@ theorem C12_post_header_roundtrip (v : Nat) (p : PostHdr)
     decodePost (encodePost v p) = .ok (v, p) :=
   post_roundtrip v p hv ha hp ht
 
+/-! ## (e) OS/2 -/
+
+/-- `os2.Read ∘ (*os2.Info).Encode = id` on the explicit domain `Os2Dom` (Proofs/MetricsOs2):
+weight/width class and first/last character uint16; every FWORD field int16; `IsRegular` excludes
+bold and italic; sxHeight, sCapHeight ≥ 0; ten panose bytes; vendor id of length 4; four uint32
+Unicode-range words whose bit 57 equals `last = 0xFFFF`; code-page range uint64; permission one of
+install/edit/view/restricted; all style, permission and code-page bits. -/
+theorem C12_os2_roundtrip (o : Os2) (d : Os2Dom o) : decodeOs2 (encodeOs2 o) = .ok o :=
+  os2_roundtrip o d
+
+/-- a plain regular font's OS/2 info, used for the witnesses below -/
+def os2Sample : Os2 :=
+  ⟨400, 5, false, false, true, false, 32, 126, 800, -200, 900, 250, 90, 700, 500, 520,
+   [650, 600, 0, 75, 650, 600, 0, 350, 50, 300], 0, [2, 0, 5, 3, 0, 0, 0, 0, 0, 0],
+   [65, 68, 66, 69], [1, 0, 0, 0], 1, 0, false, false⟩
+
+/-- The side conditions of `Os2Dom` are forced by the code (each witness is `os2Sample` with one
+field changed; the real codec agrees, stream metrics.os2enc/os2dec "outside domain"):
+regular + bold comes back not bold; a negative xHeight comes back 0; a 3-byte vendor id comes back
+as four spaces; Unicode-range bit 57 set with `last ≠ 0xFFFF` comes back cleared. -/
+theorem C12_os2_domain_forced :
+    decodeOs2 (encodeOs2 { os2Sample with isBold := true }) = .ok os2Sample ∧
+    decodeOs2 (encodeOs2 { os2Sample with xHeight := -5 }) = .ok { os2Sample with xHeight := 0 } ∧
+    decodeOs2 (encodeOs2 { os2Sample with vendor := [65, 66, 67] }) =
+      .ok { os2Sample with vendor := [32, 32, 32, 32] } ∧
+    decodeOs2 (encodeOs2 { os2Sample with unicodeRange := [1, 33554432, 0, 0] }) = .ok os2Sample := by
+  refine ⟨by decide +kernel, by decide +kernel, by decide +kernel, by decide +kernel⟩
+
+/-! ## writer-side derivations (write.go / font.go) equal their definitions -/
+
+/-- `(*sfnt.Font).FontBBox` = union (componentwise min / max) of the boxes of the glyphs with
+contours, all-zero when there is none — for glyph boxes that are boxes (`xMin ≤ xMax`, `yMin ≤ yMax`). -/
+theorem C12_fontbbox_union (es : List Rect) (hwf : ∀ e ∈ es, e.isZero = false → e.WF) :
+    fontBBoxModel es = Spec.fontBBox es :=
+  fontbbox_union es hwf
+
+/-- The well-formedness hypothesis is forced by `Rect16.Extend` treating an all-zero accumulator as
+"unset": two inverted boxes whose union is the zero rectangle make the loop start over (the real
+`FontBBox` returns (1,1,2,2) here, as the model does; the union is (0,0,2,2)). Inverted boxes are not
+glyph boxes, so this is outside the property's domain. -/
+theorem C12_fontbbox_needs_wellformed :
+    fontBBoxModel [⟨0, 0, -5, 0⟩, ⟨7, 0, 0, 0⟩, ⟨1, 1, 2, 2⟩] = ⟨1, 1, 2, 2⟩ ∧
+    Spec.fontBBox [⟨0, 0, -5, 0⟩, ⟨7, 0, 0, 0⟩, ⟨1, 1, 2, 2⟩] = ⟨0, 0, 2, 2⟩ := by
+  constructor <;> decide
+
+/-- `makeOS2`'s average width (before the int16 conversion) is the arithmetic mean of the positive
+widths rounded half up, 0 when there is none — for every width list. -/
+theorem C12_avgwidth_def (ws : List Int) : (avgWidthInt ws : Int) = Spec.avgCharWidth ws :=
+  avgwidth_def ws
+
+/-- usFirstCharIndex / usLastCharIndex as `makeOS2` computes them from the code range of a format 4
+or format 12 subtable = min(lowest code, 0xFFFF) / min(highest code, 0xFFFF), for every non-empty
+list of codes in whatever order the Go map yields them. -/
+theorem C12_charrange_def (ks : List Int) (hne : ks ≠ []) (hr : ∀ k ∈ ks, 0 ≤ k ∧ k ≤ 2147483647) :
+    (charIndexModel (codeRange4 ks).1 = min (Spec.minList ks) 0xFFFF ∧
+     charIndexModel (codeRange4 ks).2 = min (Spec.maxList ks) 0xFFFF) ∧
+    (charIndexModel (codeRange12 ks true (0, 0)).1 = min (Spec.minList ks) 0xFFFF ∧
+     charIndexModel (codeRange12 ks true (0, 0)).2 = min (Spec.maxList ks) 0xFFFF) := by
+  have hmin : 0 ≤ Spec.minList ks := by
+    rw [← runMin_true]
+    rcases runMin_mem ks true 0 with h | h
+    · rw [h]; exact Int.le_refl 0
+    · exact (hr _ h).1
+  have hmax : 0 ≤ Spec.maxList ks := by
+    rw [← runMax_true]
+    rcases runMax_mem ks true 0 with h | h
+    · rw [h]; exact Int.le_refl 0
+    · exact (hr _ h).1
+  rw [codeRange4_eq ks hne hr, codeRange12_eq, runMin_true, runMax_true]
+  exact ⟨⟨charIndexModel_eq _ hmin, charIndexModel_eq _ hmax⟩, charIndexModel_eq _ hmin, charIndexModel_eq _ hmax⟩
+
+/-- `(*sfnt.Font).IsFixedPitch` (integral widths) = "all non-zero widths are equal, and there is
+at least one glyph" — for every width list. -/
+theorem C12_fixedpitch_def (ws : List Int) : isFixedPitchModel ws = Spec.isFixedPitch ws :=
+  fixedpitch_def ws
+
+/-- usWinAscent = yMax and usWinDescent = −yMin of the font bounding box (yMin = −32768 excluded:
+its negation does not fit int16). -/
+theorem C12_winmetrics_def (es : List Rect) (hwf : ∀ e ∈ es, e.isZero = false → e.WF)
+    (h1 : -32768 < (Spec.fontBBox es).lly) (h2 : (Spec.fontBBox es).lly ≤ 32767) :
+    winMetricsModel (fontBBoxModel es) = ((Spec.fontBBox es).ury, -(Spec.fontBBox es).lly) := by
+  rw [fontbbox_union es hwf]; exact winMetrics_eq _ h1 h2
+
 /-! ## caret slope (floats): what is and is not proved -/
 
 /-- FULL statement (not proved): for every slope pair `(rise, run)` of int16 values the exact-
@@ -167,6 +252,10 @@ example : ∀ g ∈ ([⟨500, 10, ⟨10, 0, 400, 700⟩⟩, ⟨600, 0, ⟨0, 0, 
     (g.box.isZero = false ∨ false = false) → g.lsb = g.box.llx := by decide
 example : ∃ hb m, encode (infoOf [⟨2000, -32000, ⟨-32000, 0, -31000, 10⟩⟩, ⟨500, 0, ⟨0, 0, 400, 10⟩⟩]
     false 0 0 0 0) 1 0 = .ok (hb, some m) ∧ (hheaDerived hb).2.2.1 = 100 := ⟨_, _, rfl, by decide⟩
+example : Os2Dom os2Sample := by
+  constructor <;> (first | decide | (unfold I16; decide) | (intro x hx; revert x hx; decide))
+example : isFixedPitchModel [600, 0, 600, 600] = true ∧ isFixedPitchModel [600, 601] = false := by decide
+example : avgWidthInt [500, 0, 601, -3] = 551 := by decide
 example : HeadDom ⟨0x00018000, true, true, false, 1000, ⟨0, 0⟩, ⟨1700000000, 5⟩, ⟨-100, -200, 1000, 900⟩,
     true, false, false, false, false, 7, 1⟩ := by
   constructor <;> (first | decide | (unfold I16; decide))
